@@ -52,6 +52,7 @@ KEY_ONE_TRANSFORM = "transforms:%sProcessTensor:exactly one transform (%s only)"
 KEY_LAYOUT = "layout:%s(initial_state):%s"
 KEY_CAPS_STALE = "caps:%sProcessTensor:compute_caps after overwriting an existing step"
 KEY_TDEP_FINAL = "propagators:record_all=False with a time-dependent system and no controls"
+KEY_TRIVIAL = "list:TrivialProcessTensor at position %d of %d"
 KEY_STACK = "controls:float-time controls of one step added in non-chronological order"
 KEY_FINAL_ONLY = "controls:post-measurement controls with record_all=False"
 
@@ -698,6 +699,12 @@ def correspondence(res, tier, rng):
         if tdep_case:
             n = max(n, 2)
         specs = [rand_env_spec(rng, d, n) for _ in range(m)]
+        if m >= 2 and c % 7 in (2, 3):
+            # forced: a TrivialProcessTensor AFTER a real process tensor ([pt, Trivial], [A, Trivial, B])
+            n = max(n, 2) if tier != "quick" or m == 2 else n
+            specs = [rand_env_spec(rng, d, n, rng.choice(["rank4", "rank3", "rank4-t"])) for _ in range(m)]
+            specs[1] = {"kind": "trivial"}
+            res.count("forced:trivial environment after a real one")
         try:
             pts = [build_pt(s, d, n) for s in specs]
         except Exception as exc:          # the model has an answer for every such tensor list
@@ -1191,6 +1198,48 @@ def oracle_tdep_final(res, gen_seed, variant="rank4", cls="simple", key=None):
     return False
 
 
+def oracle_trivial(res, gen_seed, key=None):
+    """oqupy.TrivialProcessTensor at every position of the list: with one ancilla process tensor
+    against the dense joint evolution at ALL steps; with two ancilla process tensors against the
+    list without it (a non-existent environment changes nothing, wherever it stands)"""
+    import oqupy
+    rng = random.Random(gen_seed)
+    n = rng.randrange(2, 4)
+    case = ancilla_case(rng, rng.choice(["rank4", "rank3"]), "simple", n=n, e=2)
+    other = ancilla_case(rng, "rank3", "simple", n=n, e=rng.choice([1, 2]))
+    system = oqupy.System(case["ham"])
+    a = build_pt(case["spec"], 2, n)
+    b = build_pt(other["spec"], 2, n)
+    triv = lambda: oqupy.TrivialProcessTensor(hilbert_space_dimension=2)
+    ref1 = dense_joint(case["kraus"], case["rhoE"], case["rho0"], case["ham"], case["ctrl_ops"], n,
+                       case["e"], case["d"])
+    ref2 = run_real(system, case["rho0"], [a, b], n, case["control"])
+    found = False
+    lists = [([a, triv()], 1, ref1), ([triv(), a], 0, ref1), ([triv(), a, triv()], 2, ref1),
+             ([a, triv(), triv()], 1, ref1), ([a, triv(), b], 1, ref2), ([triv(), a, b], 0, ref2),
+             ([a, b, triv()], 2, ref2)]
+    for pts, pos, ref in lists:
+        if key and key != KEY_TRIVIAL % (pos, len(pts)):
+            continue
+        real = run_real(system, case["rho0"], pts, n, case["control"])
+        err = max(np.abs(x - y).max() for x, y in zip(real, ref))
+        if not err <= ANCILLA_TOL:
+            found = True
+            steps = [int(k) for k in range(len(ref)) if np.abs(real[k] - ref[k]).max() > ANCILLA_TOL]
+            res.fail(key or KEY_TRIVIAL % (pos, len(pts)),
+                     {"oracle": "trivial", "gen_seed": gen_seed,
+                      "list": ["Trivial" if isinstance(p, oqupy.process_tensor.TrivialProcessTensor)
+                               else "ancilla" for p in pts],
+                      "case": case["desc"], "max_state_difference": float(err),
+                      "steps_that_differ": steps,
+                      "how": "compute_dynamics with the list %s: states differ at step(s) %s from %s"
+                             % (["Trivial" if isinstance(p, oqupy.process_tensor.TrivialProcessTensor)
+                                 else "ancilla PT" for p in pts], steps,
+                                "the traced joint evolution of the one ancilla" if ref is ref1
+                                else "the same list without the TrivialProcessTensor")})
+    return found
+
+
 def oracle_history(res, gen_seed, variant, cls, key=None):
     """contract an ancilla process tensor, overwrite one step with the tensor of another joint map
     (set_mpo_tensor, compute_caps), contract again: must be the joint evolution with the new map
@@ -1327,6 +1376,10 @@ def search(res):
         for t in range(4):
             if oracle_ancilla(res, rng.randrange(10 ** 9), rng.choice(["rank4", "rank3"]), "simple", **kw):
                 break
+    # a TrivialProcessTensor at every position of the list
+    for t in range(2):
+        if oracle_trivial(res, rng.randrange(10 ** 9)):
+            break
     # final-only runs with a self-non-commuting time-dependent system, no controls
     for variant in ("rank4", "rank3"):
         for t in range(2):
@@ -1358,6 +1411,8 @@ def replay_case(res, payload):
                               stacked=fi.get("stacked", False), final_only=fi.get("final_only", False))
     if fi.get("oracle") == "history":
         return oracle_history(res, fi["gen_seed"], fi["variant"], fi["class"], key)
+    if fi.get("oracle") == "trivial":
+        return oracle_trivial(res, fi["gen_seed"], key)
     if fi.get("oracle") == "tdep-final":
         return oracle_tdep_final(res, fi["gen_seed"], fi["variant"], fi["class"], key)
     if fi.get("oracle") == "caps-gauge":
